@@ -1,6 +1,6 @@
 """C13 tuple sketch rules: policy call discipline in update, adapter argument order, filter, A-not-B source,
 intersection re-insertion of matched entries."""
-from astu import C, ctxt, gt_pair, eq_const, strip, strip_all, walk, walkp, txt, short, is_this_field, field_name, stmts_of, always_throws, functions_by, local_decls
+from astu import C, ctxt, gt_pair, eq_const, reach, reach_txt, ctext, strip, strip_all, walk, walkp, txt, short, is_this_field, field_name, stmts_of, always_throws, functions_by, local_decls
 from vlib.core import ob
 
 
@@ -36,7 +36,7 @@ def policy_discipline(facts):
                         if "map_.insert(" not in fj or "summary" not in fj[fj.index("map_.insert("):] if "map_.insert(" in fj else True:
                             problems.append("first sight does not insert the created summary")
                     rj = " ; ".join(rt).replace(" ", "")
-                    if rj.count("policy_.update(") != 1 or "policy_.update(*result.first.second," not in rj.replace("(*result.first)", "*result.first"):
+                    if rj.count("policy_.update(") != 1 or "policy_.update(result.first.second," not in rj:
                         problems.append("repeat does not apply policy.update to the stored summary `(*result.first).second` exactly once (%s)" % rt)
             if problems:
                 out.append(ob("tuple.policy", key, fn["pat"], "violated", "; ".join(problems) + ": the summary of a key would not equal the policy folded over every value offered with it", fn["qname"]))
